@@ -92,7 +92,7 @@ def _has_dp_loop(f: FuncInfo):
     for n in ast.walk(f.node):
         if isinstance(n, (ast.For, ast.While)):
             src = ast.unparse(n)
-            if "concatenate" in src and ("[~" in src or "[" in src) and "evaluate" in src:
+            if ("concatenate" in src or "np.append" in src or "hstack" in src or "np.r_" in src) and "[" in src and "evaluate" in src:
                 return True
     return False
 
